@@ -14,7 +14,7 @@ Theorem T02_roundtrip : forall closing q r order rest,
   conn_survives closing q r = true \/ is_connect_ok q r = true ->
   client_parse (client11 q) (q_method q) (resp_wire closing q r order ++ rest) =
   Some (observable closing q r order, rest).
-Proof. exact (roundtrip ob_header_only_is_rfc ob_header_only_writer_shape ob_connect_literal ob_frames_unknown_length). Qed.
+Proof. exact (roundtrip ob_header_only_is_rfc ob_header_only_writer_shape ob_connect_literal ob_frames_unknown_length ob_write_error_closes). Qed.
 Print Assumptions T02_roundtrip.
 
 (* ... and when the proxy closes the connection after the response (close-delimited body,
@@ -32,7 +32,7 @@ Theorem T02_kth_answers_kth : forall v11 xs,
   Forall (x_ok v11) xs ->
   client_parse_seq v11 (map (fun x => q_method (x_req x)) (served xs)) (conn_wire xs) =
   Some (map x_obs (served xs), []).
-Proof. exact (kth_answers_kth ob_header_only_is_rfc ob_header_only_writer_shape ob_connect_literal ob_frames_unknown_length). Qed.
+Proof. exact (kth_answers_kth ob_header_only_is_rfc ob_header_only_writer_shape ob_connect_literal ob_frames_unknown_length ob_write_error_closes). Qed.
 Print Assumptions T02_kth_answers_kth.
 
 (* The body the client gets is the origin's body, byte for byte. *)
@@ -126,8 +126,15 @@ Theorem T02_close_decision : forall closing q r,
   (conn_survives closing q r = true <->
    write_ok closing q r = true /\ r_close (prepare closing q r) = false /\ is_connect_ok q r = false).
 Proof. exact (fun closing q r H => conj (close_decision ob_close_when_closing ob_close_when_req_close ob_connect_keeps_open closing q r H)
-                                        (survives_iff closing q r)). Qed.
+                                        (survives_iff closing q r ob_write_error_closes)). Qed.
 Print Assumptions T02_close_decision.
+
+(* A response whose writing failed (the origin's body broke after the head had been sent, a
+   declared length was not met) is never followed by another response on the connection. *)
+Theorem T02_failed_write_closes : forall closing q r,
+  write_ok closing q r = false -> conn_survives closing q r = false.
+Proof. exact (failed_write_closes ob_write_error_closes). Qed.
+Print Assumptions T02_failed_write_closes.
 
 (* Non-vacuity: a HEAD reply that declares trailers, followed by a chunked reply with trailers
    to an HTTP/1.1 client, followed by a gzip-undone body of unknown length; all hypotheses hold
